@@ -41,6 +41,15 @@ def _pairs(rng, fr):
         ("prop(succ, 30) ~ x", "p(succ, 30) ~ x", "prop-const"),
         ("prop(succ, 5) ~ x", None, "prop-invalid"),
         ("prop(w, n_trials) ~ x", None, "prop-nonint"),
+        # arguments of the wrong kind are refused (every validation message of transforms.py)
+        ("prop(3, n_trials) ~ x", "p(3, n_trials) ~ x", "refused"),
+        ("prop(succ, 'a') ~ x", None, "refused"),
+        ("prop(succ, 2.5) ~ x", None, "refused"),
+        ("y ~ x + prop(succ, n_trials)", "y ~ x + p(succ, n_trials)", "refused"),
+        ("y ~ offset(f)", None, "refused"),
+        ("y ~ offset('a')", None, "refused"),
+        ("y ~ bs(x, df=4, degree=2.5)", None, "refused"),
+        ("y ~ C(x, 3)", None, "refused"),
         ("y ~ I(x)", "y ~ x", "I"),
         ("y ~ I(x + z)", "y ~ {x + z}", "I-brace"),
         ("y ~ standardize(x) + f", "y ~ scale(x) + f", "standardize"),
@@ -182,6 +191,10 @@ def oracle(c):
         if M.shape[1] != 1 or not np.array_equal(M[:, 0], want):
             return f"{f!r}: the column is not 1 exactly where {var} == {succ!r}"
         return None
+    if kind == "refused":
+        if d is not None:
+            return f"{f!r}: an argument of the wrong kind was accepted"
+        return None if isinstance(err, ValueError) else f"{f!r}: refused with {type(err).__name__} instead of ValueError"
     if d is None:
         if kind in ("prop-invalid", "prop-nonint"):
             return None if isinstance(err, ValueError) else f"{f!r}: refused with {type(err).__name__} instead of ValueError"
